@@ -6,6 +6,7 @@ require (
 	github.com/anishathalye/porcupine v1.3.0
 	github.com/atomix/atomix/api v1.1.0
 	github.com/atomix/atomix/runtime v1.1.2
+	github.com/atomix/go-sdk v0.13.3
 	github.com/golang/protobuf v1.5.3
 	github.com/google/uuid v1.3.0
 	github.com/onosproject/onos-api/go v0.10.32
@@ -17,7 +18,10 @@ require (
 
 require (
 	github.com/Shopify/sarama v1.31.1 // indirect
-	github.com/atomix/go-sdk v0.13.3 // indirect
+	github.com/atomix/atomix/protocols/rsm v1.1.0 // indirect
+	github.com/atomix/atomix/sidecar v0.4.4 // indirect
+	github.com/bits-and-blooms/bitset v1.3.1 // indirect
+	github.com/bits-and-blooms/bloom/v3 v3.3.1 // indirect
 	github.com/cenkalti/backoff v2.2.1+incompatible // indirect
 	github.com/cenkalti/backoff/v4 v4.1.1 // indirect
 	github.com/davecgh/go-spew v1.1.1 // indirect
